@@ -597,6 +597,7 @@ func c05(p *core.Program, r *core.Report) {
 	spellingRule(p, r, "spelling-variants", g)
 	ordinateFromStrconvRule(p, r, "ordinate-from-strconv")
 	nestingUnboundedRule(p, r, "nesting-depth-unbounded")
+	staleElementPointerRule(p, r, "no-stale-element-pointer", wktRel)
 	encoderRecursionRule(p, r, "encoder-recursion-depth-bounded", [][3]string{{wktRel, "(*Encoder).write", "wkt.encoder-write"}}, "the WKT encoder's write")
 
 	// ---- EMPTY members / offsets in the encoder
